@@ -159,7 +159,16 @@ func (d *Document) writeJSONValue(buf *bytes.Buffer, value Value) error {
 			// Remove the extra newline that Encode adds
 			buf.Truncate(buf.Len() - 1)
 		} else {
-			buf.Write(quotes.WrapBytes(d.StringValueContentBytes(value.Ref)))
+			// raw control characters (e.g. TAB) are legal inside a GraphQL string but not inside a JSON string
+			buf.WriteByte('"')
+			for _, c := range d.StringValueContentBytes(value.Ref) {
+				if c < 0x20 {
+					fmt.Fprintf(buf, `\u%04x`, c)
+					continue
+				}
+				buf.WriteByte(c)
+			}
+			buf.WriteByte('"')
 		}
 	case ValueKindList:
 		buf.WriteByte(literal.LBRACK_BYTE)
